@@ -193,6 +193,7 @@ def step (st : St) (line : String) : St × String :=
       | none => (st, "err")
     | none => (st, "bad-op")
   | ["raw", _] => (st, "ok")
+  | ["probe"] => (st, "ok")
   | ["car", fk, scope, rng, _] =>
     match (fk.drop 1).toString.toNat? with
     | none => (st, "bad-op")
